@@ -5,7 +5,7 @@ package mocker
 //	c19.s <cfg> <target> <op> ; <op> ; ...        cfg: off | debug | trace | env   (only lines whose cfg equals $VERIF_C19_CFG run)
 //	c19.sv <kind>:<val> <kind>:<val> ...           arg.SprintV on a vector of reflect.Values (kinds as delivered by reflect.MakeFunc)
 //
-// targets  f2 fv fm fp fa ms mv ia iv ip it         (plain / variadic / pointer+interface functions, methods, interface methods)
+// targets  f2 fv fm fp fa ms mv ia iv ip it ow ox oz         (plain / variadic / pointer+interface functions, methods, interface methods)
 // ops      apply <cb> | ret <v,..> | when <a,..> <v,..> | rets <v,..>|<v,..>|.. | call <a,..> | cancel | dbg on|off|tron|troff
 // cb       sum<k> | pan<k> | nilp | echo | retn
 // values   int: -3   string: s<letters>   *node: nil | n<k>   interface{}: nil | i<int> | t<letters> | pn<k> | tn | z<k>
@@ -18,8 +18,11 @@ import (
 	"bytes"
 	"errors"
 	"fmt"
+	"io"
 	"math"
 	"os"
+	"path"
+	"path/filepath"
 	"reflect"
 	"runtime"
 	"runtime/debug"
@@ -193,7 +196,58 @@ func c19Ints(xs []int) string {
 	for i, x := range xs {
 		p[i] = strconv.Itoa(x)
 	}
-	return "[" + strings.Join(p, ",") + "]"
+	// what a callee can tell about the slice header it was handed
+	if xs == nil {
+		return "[" + strings.Join(p, ",") + "]nil"
+	}
+	return "[" + strings.Join(p, ",") + "]#" + strconv.Itoa(cap(xs))
+}
+
+// c19Poke is the last thing a `sum` callback does with its variadic parameter: a store the caller of a
+// spread call f(xs...) must see.
+func c19Poke(cb string, xs []int) {
+	if strings.HasPrefix(cb, "sum") && len(xs) > 0 {
+		xs[0] += 1000
+	}
+}
+
+// ---- leaf targets for Origin placeholders: the first instructions are RIP-relative and execute ----------------------
+
+var (
+	c19LA, c19LB, c19LC = 7, 5, 11
+	c19LFlag            bool
+)
+
+//go:noinline
+func c19OW() int { return c19LA*3 + c19LB*5 + c19LC }
+
+//go:noinline
+func c19OX(x int) int { return c19LA + c19LB + x }
+
+//go:noinline
+func c19OZ(x int) int {
+	if c19LFlag {
+		return x + 1
+	}
+	return x + c19LA
+}
+
+var c19OrigW = func() int {
+	fmt.Println("only for placeholder, will not call")
+	fmt.Println("only for placeholder, will not call")
+	return 0
+}
+
+var c19OrigX = func(x int) int {
+	fmt.Println("only for placeholder, will not call")
+	fmt.Println("only for placeholder, will not call")
+	return x
+}
+
+var c19OrigZ = func(x int) int {
+	fmt.Println("only for placeholder, will not call")
+	fmt.Println("only for placeholder, will not call")
+	return x
 }
 
 func c19Sum(xs []int) int {
@@ -357,7 +411,7 @@ func (s *c19Impl) V(p string, xs ...int) int {
 }
 
 // shape of a target's parameter list (without receiver): I int, S string, P *node, A interface{}, V ...int
-var c19Shapes = map[string]string{"f2": "IS", "fv": "V", "fm": "SV", "fp": "PA", "fa": "A", "ms": "IS", "mv": "SV", "ia": "IS", "iv": "SV", "ip": "PA", "it": "I"}
+var c19Shapes = map[string]string{"f2": "IS", "fv": "V", "fm": "SV", "fp": "PA", "fa": "A", "ms": "IS", "mv": "SV", "ia": "IS", "iv": "SV", "ip": "PA", "it": "I", "ow": "", "ox": "I", "oz": "I"}
 
 type c19Scn struct {
 	tgt   string
@@ -384,6 +438,12 @@ func (c *c19Scn) mocker() ExportedMocker {
 		return c.mock.Func(c19FA)
 	case "it": // a library function goom's own console logger calls (logger.go:358 caller): finding F14
 		return c.mock.Func(strconv.Itoa)
+	case "ow":
+		return c.mock.Func(c19OW).Origin(&c19OrigW)
+	case "ox":
+		return c.mock.Func(c19OX).Origin(&c19OrigX)
+	case "oz":
+		return c.mock.Func(c19OZ).Origin(&c19OrigZ)
 	case "ms":
 		return c.mock.Struct(&c19S{}).Method("M")
 	case "mv":
@@ -401,7 +461,7 @@ func (c *c19Scn) mocker() ExportedMocker {
 // callback builds the user callback `cb` with the exact signature goom demands for the target.
 func (c *c19Scn) callback(cb string) interface{} {
 	kind, k := cb, 0
-	for _, p := range []string{"sum", "pan"} {
+	for _, p := range []string{"sum", "pan", "org"} {
 		if strings.HasPrefix(cb, p) {
 			kind, k = p, c19ParseInt(cb[len(p):])
 		}
@@ -412,12 +472,17 @@ func (c *c19Scn) callback(cb string) interface{} {
 		switch kind {
 		case "sum":
 			return k + base
+		case "org": // the caller adds what the Origin placeholder returns
+			return k
 		case "pan":
 			panic("boom" + strconv.Itoa(k))
 		case "nilp":
 			var p *c19Node
 			return p.ID
 		}
+		panic("bad-op")
+	}
+	if isO := c.tgt == "ow" || c.tgt == "ox" || c.tgt == "oz"; kind == "org" && !isO {
 		panic("bad-op")
 	}
 	bodyP := func(p *c19Node, v interface{}) (*c19Node, interface{}) {
@@ -436,19 +501,39 @@ func (c *c19Scn) callback(cb string) interface{} {
 		}
 		panic("bad-op")
 	}
-	if okInt := kind == "sum" || kind == "pan" || kind == "nilp"; c.intResult() && !okInt {
+	if okInt := kind == "sum" || kind == "pan" || kind == "nilp" || kind == "org"; c.intResult() && !okInt {
 		panic("bad-op")
 	}
 	if okP := kind == "echo" || kind == "retn" || kind == "pan" || kind == "nilp"; !c.intResult() && !okP {
 		panic("bad-op")
 	}
 	is := func(a int, b string) int { return body(fmt.Sprintf("%d,%s", a, c19Str(b)), a+len(b)) }
-	sv := func(p string, xs ...int) int { return body(c19Str(p)+","+c19Ints(xs), len(p)+c19Sum(xs)) }
+	sv := func(p string, xs ...int) int {
+		r := body(c19Str(p)+","+c19Ints(xs), len(p)+c19Sum(xs))
+		c19Poke(cb, xs)
+		return r
+	}
+	viaOrigin := func(r int, orig func() int) int {
+		if kind == "org" {
+			return r + orig()
+		}
+		return r
+	}
 	switch c.tgt {
 	case "f2":
 		return is
 	case "fv":
-		return func(xs ...int) int { return body(c19Ints(xs), c19Sum(xs)) }
+		return func(xs ...int) int {
+			r := body(c19Ints(xs), c19Sum(xs))
+			c19Poke(cb, xs)
+			return r
+		}
+	case "ow":
+		return func() int { return viaOrigin(body("", 0), func() int { return c19OrigW() }) }
+	case "ox":
+		return func(x int) int { return viaOrigin(body(fmt.Sprint(x), x), func() int { return c19OrigX(x) }) }
+	case "oz":
+		return func(x int) int { return viaOrigin(body(fmt.Sprint(x), x), func() int { return c19OrigZ(x) }) }
 	case "fm":
 		return sv
 	case "fp":
@@ -554,33 +639,71 @@ func (c *c19Scn) c19Call(a []interface{}) (res string) {
 			res = "->p:" + c19Class(r)
 		}
 	}()
+	var spread []int // the caller's own slice of a spread call f(xs...); nil when there are no variadic arguments
 	ints := func(from int) []int {
-		var xs []int
-		for _, v := range a[from:] {
-			xs = append(xs, v.(int))
+		if n := len(a) - from; n > 0 {
+			spread = make([]int, 0, n)
+			for _, v := range a[from:] {
+				spread = append(spread, v.(int))
+			}
+		}
+		return spread
+	}
+	first := 0
+	alias := func() string {
+		if len(spread) == 0 {
+			return ""
+		}
+		if spread[0] != first {
+			return "~a1" // a callee's store into xs[0] reached the caller
+		}
+		return "~a0"
+	}
+	setFirst := func(xs []int) []int {
+		if len(xs) > 0 {
+			first = xs[0]
 		}
 		return xs
 	}
+	nev := len(c19Events)
 	var r int
 	switch c.tgt {
 	case "f2":
 		r = c19F2(a[0].(int), a[1].(string))
 	case "fv":
-		r = c19FV(ints(0)...)
+		r = c19FV(setFirst(ints(0))...)
 	case "fm":
-		r = c19FM(a[0].(string), ints(1)...)
+		r = c19FM(a[0].(string), setFirst(ints(1))...)
 	case "fa":
 		r = c19FA(a[0])
 	case "it":
 		return "->r:" + strconv.Itoa(a[0].(int))
+	case "ow", "ox", "oz":
+		c19Fault(func() {
+			switch c.tgt {
+			case "ow":
+				r = c19OW()
+			case "ox":
+				r = c19OX(a[0].(int))
+			default:
+				r = c19OZ(a[0].(int))
+			}
+		})
+		if len(c19Events) == nev { // the leaf originals cannot record: no callback ran, so the original did
+			d := ""
+			if len(a) > 0 {
+				d = fmt.Sprint(a[0])
+			}
+			c19Rec("orig(%s)", d)
+		}
 	case "ms":
 		r = c.recv.M(a[0].(int), a[1].(string))
 	case "mv":
-		r = c.recv.V(a[0].(string), ints(1)...)
+		r = c.recv.V(a[0].(string), setFirst(ints(1))...)
 	case "ia":
 		r = c.ivar.A(a[0].(int), a[1].(string))
 	case "iv":
-		r = c.ivar.V(a[0].(string), ints(1)...)
+		r = c.ivar.V(a[0].(string), setFirst(ints(1))...)
 	case "fp", "ip":
 		var p *c19Node
 		if a[0] != nil {
@@ -597,7 +720,13 @@ func (c *c19Scn) c19Call(a []interface{}) (res string) {
 	default:
 		panic("bad-op")
 	}
-	return "->r:" + strconv.Itoa(r)
+	return "->r:" + strconv.Itoa(r) + alias()
+}
+
+// c19Fault turns a wild memory access in relocated code into a panic instead of killing the process.
+func c19Fault(f func()) {
+	defer debug.SetPanicOnFault(debug.SetPanicOnFault(true))
+	f()
 }
 
 func c19Guard(f func()) (res string) {
@@ -663,7 +792,7 @@ func c19RunScenario(toks []string, logf *os.File) string {
 			if g := c19Guard(func() { a = c.args(op[1]) }); g != "ok" {
 				return "bad-op"
 			}
-			if n := len(shape); len(a) < n-1 || (shape[n-1] != 'V' && len(a) != n) {
+			if n := len(shape); len(a) < n-1 || ((n == 0 || shape[n-1] != 'V') && len(a) != n) {
 				return "bad-op"
 			}
 			res := c.c19Call(a)
@@ -786,6 +915,73 @@ func c19RunSprintV(toks []string) (res string) {
 	return "sv=" + strings.ReplaceAll(c19Hex(arg.SprintV(vs)), " ", "_")
 }
 
+// ---- library lane: functions that are NOT on the logger's path on the unchanged tree ----------------------------------
+
+// c19RunLib mocks one standard-library function with a callback, calls it once, resets.  Between Apply and Reset the
+// probe itself uses none of the functions of the lane (no fmt, no strings, no strconv, no path).
+func c19RunLib(fn string) (res string) {
+	n := 0
+	r := ""
+	mock := Create()
+	defer func() {
+		if p := recover(); p != nil {
+			mock.Reset()
+			res = "lib panic:" + c19Class(p)
+		}
+	}()
+	one := func(v int) string {
+		if v == 7 {
+			return "m"
+		}
+		return "?"
+	}
+	switch fn {
+	case "fmt.Print":
+		mock.Func(fmt.Print).Apply(func(a ...interface{}) (int, error) { n++; return 7, nil })
+		v, _ := fmt.Print("x")
+		r = one(v)
+	case "fmt.Println":
+		mock.Func(fmt.Println).Apply(func(a ...interface{}) (int, error) { n++; return 7, nil })
+		v, _ := fmt.Println("x")
+		r = one(v)
+	case "fmt.Fprint":
+		mock.Func(fmt.Fprint).Apply(func(w io.Writer, a ...interface{}) (int, error) { n++; return 7, nil })
+		v, _ := fmt.Fprint(io.Discard, "x")
+		r = one(v)
+	case "fmt.Sprint":
+		mock.Func(fmt.Sprint).Apply(func(a ...interface{}) string { n++; return "m" })
+		r = fmt.Sprint("x", 1)
+	case "fmt.Sprintln":
+		mock.Func(fmt.Sprintln).Apply(func(a ...interface{}) string { n++; return "m" })
+		r = fmt.Sprintln("x", 1)
+	case "strings.Repeat":
+		mock.Func(strings.Repeat).Apply(func(s string, c int) string { n++; return "m" })
+		r = strings.Repeat("x", 3)
+	case "strings.ToUpper":
+		mock.Func(strings.ToUpper).Apply(func(s string) string { n++; return "m" })
+		r = strings.ToUpper("x")
+	case "strings.TrimSpace":
+		mock.Func(strings.TrimSpace).Apply(func(s string) string { n++; return "m" })
+		r = strings.TrimSpace(" x ")
+	case "strconv.Quote":
+		mock.Func(strconv.Quote).Apply(func(s string) string { n++; return "m" })
+		r = strconv.Quote("x")
+	case "strconv.FormatBool":
+		mock.Func(strconv.FormatBool).Apply(func(b bool) string { n++; return "m" })
+		r = strconv.FormatBool(true)
+	case "path.Join":
+		mock.Func(path.Join).Apply(func(e ...string) string { n++; return "m" })
+		r = path.Join("a", "b")
+	case "filepath.Base":
+		mock.Func(filepath.Base).Apply(func(p string) string { n++; return "m" })
+		r = filepath.Base("/a/b")
+	default:
+		return "bad-op"
+	}
+	mock.Reset()
+	return "lib n=" + strconv.Itoa(n) + " r=" + r
+}
+
 func c19HasCycle(toks []string) bool {
 	for _, t := range toks {
 		for _, v := range strings.Split(t, ",") {
@@ -840,7 +1036,7 @@ func TestVerifC19(t *testing.T) {
 			if len(op.Toks) < 2 || op.Toks[1] != cfg {
 				continue
 			}
-			if os.Getenv("VERIF_C19_ISOLATED") == "" && (c19HasCycle(op.Toks) || (len(op.Toks) > 2 && op.Toks[2] == "it")) {
+			if os.Getenv("VERIF_C19_ISOLATED") == "" && (c19HasCycle(op.Toks) || (len(op.Toks) > 2 && (op.Toks[2] == "it" || op.Toks[2][0] == 'o'))) {
 				continue // slice/map cycles (F13) only run in a child process of their own
 			}
 			if dirty { // a previous scenario toggled the switches: put the process configuration back
@@ -856,6 +1052,10 @@ func TestVerifC19(t *testing.T) {
 			}
 			dirty = strings.Contains(op.Line, " dbg ")
 			out.Put(op.Idx, "%s", c19RunScenario(op.Toks, logf))
+		case "c19.lib":
+			if len(op.Toks) == 3 && op.Toks[1] == cfg && os.Getenv("VERIF_C19_ISOLATED") != "" {
+				out.Put(op.Idx, "%s", c19RunLib(op.Toks[2]))
+			}
 		case "c19.sv":
 			if cfg == "off" {
 				out.Put(op.Idx, "%s", c19RunSprintV(op.Toks))
